@@ -226,6 +226,7 @@ pub fn child_main(line: &str) {
     let w: Vec<&str> = line.split_whitespace().collect();
     let (kind, when, k) = match parse_run(&w) { Some(x) => x, None => std::process::exit(3) };
     crate::exec_world::quiet_panics();
+    let watchers_before = child::tasks(std::process::id()).into_iter().filter(|t| t.1.starts_with("notify-rs")).count();
     let mut caches: Vec<AnyCacheBox> = vec![];
     let mut tids: Vec<u32> = vec![];
     let base = std::env::temp_dir().join(format!("amh-idle-{}", std::process::id()));
@@ -312,7 +313,8 @@ pub fn child_main(line: &str) {
         }
     }
     let mut keep_sources = vec![];
-    for c in caches { match c { AnyCacheBox::Mem(cache, src) => { drop(cache); keep_sources.push(src); } AnyCacheBox::Never(cache, src) => { drop(cache); keep_sources.push(src); } AnyCacheBox::Fs(cache, _) => drop(cache) } }
+    let mut fs_dirs: Vec<std::path::PathBuf> = vec![];
+    for c in caches { match c { AnyCacheBox::Mem(cache, src) => { drop(cache); keep_sources.push(src); } AnyCacheBox::Never(cache, src) => { drop(cache); keep_sources.push(src); } AnyCacheBox::Fs(cache, dir) => { drop(cache); fs_dirs.push(dir); } } }
     child::progress();
     // give the threads a short time to go away, then look at those that are still there
     let t0 = Instant::now();
@@ -322,6 +324,22 @@ pub fn child_main(line: &str) {
     let left = tids.iter().filter(|t| task_stat(std::process::id(), **t).is_some()).count();
     let b: Vec<V> = if tids.is_empty() { vec![V::Exited] } else { before.iter().map(|x| x.0).collect() };
     let a: Vec<V> = if tids.is_empty() { vec![V::Exited] } else { after.iter().map(|x| x.0).collect() };
+    // the file-system watcher of a dropped cache goes away at the next change it sees, whatever that change is about
+    // (here: entries that are no asset ids at all)
+    if !fs_dirs.is_empty() {
+        let watchers = || child::tasks(std::process::id()).into_iter().filter(|t| t.1.starts_with("notify-rs")).count();
+        let t0 = Instant::now();
+        let mut round = 0;
+        while watchers() > watchers_before && t0.elapsed() < Duration::from_secs(4) {
+            for d in &fs_dirs { let _ = std::fs::write(d.join(format!("notes.v{round}.txt")), b"x"); let _ = std::fs::write(d.join(format!(".swap{round}.txt.swp")), b"y"); }
+            round += 1;
+            child::progress();
+            std::thread::sleep(Duration::from_millis(40));
+        }
+        let w = watchers();
+        println!("S run/watcher-released-after-rounds={}", round.min(9));
+        if w > watchers_before { println!("O watcher-thread-left-behind {} file-system watcher thread(s) of dropped caches still alive after {round} rounds of changes to non-asset entries under their roots", w - watchers_before); }
+    }
     println!("R before={} after={} left={left}", summarise(&b), summarise(&a));
     drop(keep_sources);
     let _ = std::fs::remove_dir_all(&base);
